@@ -114,11 +114,80 @@ def grid_cases(ctx):
     return out
 
 
+def open_type_sites(ctx):
+    """the same rewrites INSIDE values of open types: records whose ANY DEFINED BY member (bare, EXPLICIT-tagged, and as the
+    elements of a SET OF / SEQUENCE OF ANY) holds a BOOLEAN, a string, or a SEQUENCE of them; decoded by DER (and CER for
+    the BOOLEAN) with the open types resolved - the strict decoder is strict down there as well"""
+    from pyasn1.type import univ, namedtype, opentype, tag
+    der = I.ENC['DER']
+    inner_types = {1: univ.Boolean(), 2: univ.OctetString(), 3: univ.BitString(),
+                   4: univ.Sequence(componentType=namedtype.NamedTypes(namedtype.NamedType('b', univ.Boolean()), namedtype.NamedType('o', univ.OctetString()))),
+                   5: univ.SequenceOf(componentType=univ.Boolean())}
+    def inner_value(g):
+        if g == 1: return univ.Boolean(True)
+        if g == 2: return univ.OctetString(b'abc')
+        if g == 3: return univ.BitString(binValue='1011000010100101')
+        if g == 4:
+            v = inner_types[4].clone(); v['b'] = True; v['o'] = b'xy'; return v
+        v = inner_types[5].clone(); v.extend([True, True]); return v
+    def record(base_cls, member):
+        return base_cls(componentType=namedtype.NamedTypes(
+            namedtype.NamedType('id', univ.Integer()),
+            namedtype.NamedType('blob', member, openType=opentype.OpenType('id', inner_types))))
+    members = [('ANY', univ.Any(), False), ('[0] EXPLICIT ANY', univ.Any().subtype(explicitTag=tag.Tag(128, 32, 0)), False),
+               ('SET OF ANY', univ.SetOf(componentType=univ.Any()), True), ('SEQUENCE OF ANY', univ.SequenceOf(componentType=univ.Any()), True),
+               ('[1] IMPLICIT SEQUENCE OF ANY', univ.SequenceOf(componentType=univ.Any()).subtype(implicitTag=tag.Tag(128, 32, 1)), True)]
+    def sites_below(node, path, out, inside):
+        if inside:
+            cls, num = node.tag
+            if node.cons: out.append((path, 'cons'))
+            elif cls == 0 and num == 1 and node.content == b'\xff': out.append((path, 'bool'))
+            elif cls == 0 and num == 4: out.append((path, 'octs'))
+            elif cls == 0 and num == 3: out.append((path, 'bits'))
+        if node.cons:
+            for i, k in enumerate(node.kids):
+                sites_below(k, path + (i,), out, inside)
+    for base_cls in (univ.Sequence, univ.Set):
+        for mname, member, is_list in members:
+            spec = record(base_cls, member)
+            for g in inner_types:
+                v = spec.clone(); v['id'] = g
+                blob = der.encode(inner_value(g))
+                if is_list:
+                    v['blob'].extend([univ.Any(blob), univ.Any(blob)] if g != 1 else [univ.Any(blob)])
+                else:
+                    v['blob'] = member.clone(blob)
+                e = I.run_encode('DER', v)
+                if e[0] != 'ok':
+                    ctx.stats['open-type grid: not encodable'] += 1; continue
+                ok = I.run_decode('DER', e[1], asn1Spec=spec, decodeOpenTypes=True)
+                if ok[0] != 'ok' or ok[2]:
+                    ctx.stats['open-type grid: DER form not accepted'] += 1; continue
+                root, _ = dertree.parse(e[1])
+                # the member holding the open type is the child of the record that is not the INTEGER id
+                sites = []
+                for i, kid in enumerate(root.kids):
+                    if kid.tag != (0, 2):
+                        sites_below(kid, (i,), sites, True)
+                for path, kind in sites:
+                    data, what = rewrite(e[1], path, kind, ctx.rng)
+                    for dc in ['DER'] + (['CER'] if kind == 'bool' else []):
+                        d = I.run_decode(dc, data, asn1Spec=spec, decodeOpenTypes=True)
+                        ctx.case(('open', dc, data, mname, base_cls.__name__), True)
+                        ctx.stats['rewrite inside an open type value:%s' % kind] += 1
+                        m = {'decoder': dc, 'record': '%s { id INTEGER, blob %s DEFINED BY id }' % (base_cls.__name__.upper(), mname), 'governing': g,
+                             'der': e[1].hex(), 'rewritten': data.hex(), 'rewrite': what, 'path': list(path), 'decodeOpenTypes': True}
+                        if d[0] == 'ok':
+                            ctx.prop_fail('%s decoder accepts a non-canonical encoding inside an open type value (%s at depth %d)' % (dc, what, len(path)), m)
+                        elif not I.is_library(d[1]):
+                            ctx.prop_fail('%s decoder crashed with %s on a non-canonical encoding inside an open type value' % (dc, d[1]), m)
+
+
 def run(ctx):
     ctx.rule = ('valid DER encodings of random values; every single non-canonical rewrite of one element (definite->indefinite length of a '
                 'constructed element, primitive->segmented string of each string type, FF->other non-zero BOOLEAN) at every position and '
                 'depth; decoded by DER (all three rewrites) and CER (BOOLEAN) with the guiding type and, for types without IMPLICIT tags, without; '
-                'non-trivial = rewrite below the top level')
+                'the same rewrites inside values of open types (bare / EXPLICIT ANY DEFINED BY, SET OF / SEQUENCE OF ANY) decoded with the open types resolved; non-trivial = rewrite below the top level')
     search_only = getattr(ctx, 'search_only', False)
     exprs, meta = [], []
     for implicit_ok in (True, False):
@@ -162,6 +231,7 @@ def run(ctx):
                             exprs.append('match decode %s (Some %s) %s with Err EUnmodelled => 2 | Err e => if is_library e then 0 else 1 | Ok _ => 1 end' % (
                                 dc, c.cty, cbytes(data)))
                             meta.append(m)
+    open_type_sites(ctx)
     if meta: ctx.sample(meta[0]); ctx.sample(meta[-1])
     if not search_only:
         codes = core.coq_codes('c15', 'Model.Dec Model.Obs', exprs)
